@@ -291,3 +291,49 @@ def check_awaits(ctx, files=None):
                    f, len(allowed), sum(len(v) for v in cen.values()),
                    "; unreviewed: " + "; ".join(new) if new else ""),
                bad or [s for v in cen.values() for s in v][:6])
+
+
+# ---------------------------------------------------------------------------------------------------------------------------
+# Narrowing integer casts. Value origins look through casts, so a counter, epoch, index or time component that is squeezed through
+# `as u32` keeps its origin and every flow rule still holds, while the value silently wraps. The crate has seven narrowing casts
+# (rng, task_set's packed u32 indices, one worker-count mask), each read; any other narrowing `as` is reported.
+_W = {"u8": 8, "i8": 8, "u16": 16, "i16": 16, "u32": 32, "i32": 32, "u64": 64, "i64": 64, "usize": 64, "isize": 64, "u128": 128, "i128": 128}
+NARROWING_ALLOWED = {
+    "nexosim/src/executor/mt_executor/pool_manager.rs": 1,   # set_all_workers_active: pool_size as u32 (shift amount, pool_size <= usize::BITS checked in new)
+    "nexosim/src/util/rng.rs": 3,                             # 128-bit multiply, high / low halves
+    "nexosim/src/grpc/codegen/simulation.rs": 1,             # generated tonic code: `tonic::Code::Unimplemented as i32` (enum discriminant), grpc feature only
+    "nexosim/src/util/task_set.rs": 5,                        # packed (u32 index, u32 countdown) words; lengths checked against u32::MAX
+}
+
+
+def narrowing_casts(prog):
+    out = []
+    for b in prog.all_bodies():
+        if "::tests" in b.name:
+            continue
+        for s in b.assigns():
+            r = s.node["r"]
+            if r["r"] != "cast" or "IntToInt" not in str(r.get("kind")):
+                continue
+            o = r["o"]
+            src = None
+            if o.get("k") in ("copy", "move") and not o["pl"]["p"]:
+                src = b.locals[o["pl"]["l"]]["ty"]
+            elif o.get("k") == "const":
+                src = o.get("ty")
+            dst = r.get("ty")
+            if src in _W and dst in _W and _W[dst] < _W[src]:
+                out.append(s)
+    return out
+
+
+def check_narrowing(ctx):
+    sites = narrowing_casts(ctx.prog)
+    cen = collections.Counter(s.body.file for s in sites)
+    over = [f for f, n in cen.items() if n > NARROWING_ALLOWED.get(f, 0)]
+    bad = [s for s in sites if s.body.file in over]
+    ctx.ob("inventory|narrowing-casts", not over,
+           "no integer is narrowed with `as` outside the %d reviewed sites (a narrowed counter / epoch / index keeps its origin for every flow rule "
+           "but wraps at run time)%s" % (sum(NARROWING_ALLOWED.values()), "; new: " + ", ".join(sorted(over)) if over else ""), bad or sites)
+    if not sites:
+        ctx.missing("narrowing-cast inventory: no cast site found (the extractor no longer reports casts?)")
